@@ -14,22 +14,7 @@ global size_of usize == 8;
 
 //@INCLUDE prelude/std_extra.rs
 
-// ------------------------------------------------------------------ std items vstd lacks (ASSUMED: a Mutex is a lock)
-#[verifier::external_type_specification]
-#[verifier::external_body]
-#[verifier::reject_recursive_types(T)]
-pub struct ExMutex<T: ?Sized>(Mutex<T>);
-
-#[verifier::external_type_specification]
-#[verifier::external_body]
-#[verifier::reject_recursive_types(T)]
-pub struct ExMutexGuard<'a, T: ?Sized + 'a>(MutexGuard<'a, T>);
-
-#[verifier::external_type_specification]
-#[verifier::external_body]
-#[verifier::reject_recursive_types(T)]
-pub struct ExPoisonError<T>(PoisonError<T>);
-
+//@INCLUDE prelude/mutex_types.rs
 // the value protected by the lock at the moment it is acquired is ARBITRARY (other threads may have changed it since
 // the last release): no ensures about its content.  This is the rely of a lock-protected structure.
 pub assume_specification<'a, T: ?Sized>[ Mutex::<T>::lock ](m: &'a Mutex<T>) -> (r: LockResult<MutexGuard<'a, T>>);
